@@ -1333,6 +1333,15 @@ Proof.
 Qed.
 
 (* ------------------------------------------------------------------------------------------ *)
+(** * room definitions from a peer: the next start *)
+Theorem room_def_restart_holds : forall m v, restart_succeeds m v = true.
+Proof. intros m v. destruct m, v; try destruct b64; reflexivity. Qed.
+
+(* every accepted row is one the loader reads *)
+Theorem accepted_rows_load : forall m v, room_row_accepted m v = true -> loader_reads m v = true.
+Proof. intros m v. destruct m, v; try destruct b64; cbn; intro H; try discriminate; reflexivity. Qed.
+
+(* ------------------------------------------------------------------------------------------ *)
 (** * the master statement: outside the listed classes the model satisfies the property's oracle *)
 
 Lemma Forall2_map_same : forall A B C (f : A -> B) (g : A -> C) (R : B -> C -> Prop) l,
@@ -1390,8 +1399,7 @@ Proof.
     cbn [Z.eqb andb].
     repeat (apply andb_true_intro; split); try reflexivity; apply Z.leb_le; lia.
   - rewrite (ingest_never_kills_the_writer rf md). reflexivity.
-  - apply flag_nil in Hk. apply Bool.negb_false_iff in Hk. unfold room_def_obs. rewrite Hk.
-    destruct (room_row_accepted rm rv); reflexivity.
+  - unfold room_def_obs. rewrite (room_def_restart_holds rm rv). destruct (room_row_accepted rm rv); reflexivity.
   - reflexivity.
 Qed.
 
@@ -1582,17 +1590,9 @@ Definition w_alias_filter_agg : aquery :=  (* Person(order_by(a0 asc), a1 >= nul
   {| aq_sel := [ASAgg AMax FString; ASJson; ASField FBool true]; aq_search := None; aq_order := [KSel 0]; aq_first := None; aq_skip := None;
      aq_before := []; aq_after := []; aq_filters := [(KSel 1, false, ANull)]; aq_nullable := []; aq_params := [] |}.
 
-Theorem room_def_restart_outside_known : forall m v,
-  restart_succeeds m v = false <-> (m = MUserEnabled /\ v = JMissing).
-Proof.
-  intros m v. split.
-  - destruct m, v; cbn; try discriminate; try (destruct b64; discriminate); auto.
-  - intros [-> ->]. reflexivity.
-Qed.
-
 Lemma room_def_witnesses_w :
-  run_C14 (CRoomDef MUserEnabled JMissing) = [0; 1; 0] /\ known_C14 (CRoomDef MUserEnabled JMissing) = [11] /\
-  spec_C14 (CRoomDef MUserEnabled JMissing) [0; 1; 0] = false /\
+  run_C14 (CRoomDef MUserEnabled JMissing) = [0; 1; 1] /\ known_C14 (CRoomDef MUserEnabled JMissing) = [] /\
+  spec_C14 (CRoomDef MUserEnabled JMissing) [0; 1; 1] = true /\
   run_C14 (CRoomDef MUserEnabled JNull) = [1; 1; 1] /\ run_C14 (CRoomDef MUserEnabled JBoolean) = [0; 1; 1] /\
   run_C14 (CRoomDef MRightSelf JNumber) = [1; 1; 1] /\ run_C14 (CRoomDef MAuthName JNull) = [0; 1; 1].
 Proof. vm_compute. repeat split; reflexivity. Qed.
